@@ -255,7 +255,7 @@ func checkDefs() map[string]CheckDef {
 	add(CheckDef{
 		ID: "C12",
 		Obligations: []Obligation{
-			{Pkg: "internal/verifh/c12", Harness: "VerifC12Sync", Quick: map[string]int{"phases": 2}, TV: 10},
+			{Pkg: "internal/verifh/c12", Harness: "VerifC12Sync", Quick: map[string]int{"phases": 2}, TV: 1, Note: "few native validation runs: with an unreachable sender every native run waits out the real 10 s reply timeout"},
 			{Pkg: "internal/verifh/c12", Harness: "VerifC12Update", Quick: map[string]int{"phases": 2}, TV: 10},
 			{Pkg: "internal/verifh/c08", Harness: "VerifC08Validation", TV: 6, Note: "proposal messages: no panic, parent channel not left locked"},
 			{Pkg: "internal/verifh/c12", Harness: "VerifVirtualFunding", Quick: map[string]int{"devmask": 9437}, TV: 1, Note: "quick: deviations 0,2,3,4,6,7,10,13 (the others run in C07's quick tier)"},
